@@ -167,6 +167,20 @@ class BlockFormat(Contract):
         return {"self": me, "allow_missing_author": fresh("bool", "allow_missing_author")}
 
 
+# P-04b'  ChangeBlock.add_trailing_line (how the parser files every line after the trailer): the line is appended as it is, nothing
+# else of the block changes
+class AddTrailingLine(Contract):
+    locals_order = ['self', 'line']
+    target = MOD + ":ChangeBlock.add_trailing_line"
+    modular = False
+    modifies = ("self._trailing",)
+    ensures = ("self._trailing == old(self._trailing) + [line]",)
+
+    def setup(self, ex):
+        me = BlockFormat().setup(ex)["self"]
+        return {"self": me, "line": fresh("str", "line")}
+
+
 def verify_block_format(ctx):
     sl = SpecLib()
     w = World(sl)
@@ -176,7 +190,7 @@ def verify_block_format(ctx):
         w.spec_func(f)
     w.spec_func(fmt_pairs, rec=dict(args=[("list", PAIR)], ret="str"))
     w.spec_func(fmt_lines, rec=dict(args=["list:str"], ret="str"))
-    verify_contracts(ctx, w, [BlockFormat()], {})
+    verify_contracts(ctx, w, [BlockFormat(), AddTrailingLine()], {})
     ctx.assumptions.append("the extra header pairs are kept in a dict: its items() come in insertion order (modelled as a list of pairs)")
     ctx.solve()
 
@@ -253,7 +267,7 @@ def run(ctx):
     real = mod.real()
     verify_block_format(ctx)
     verify_changelog_format(ctx)
-    for q in ("Changelog.parse_changelog", "ChangeBlock._format", "Changelog._format"):
+    for q in ("Changelog.parse_changelog", "ChangeBlock._format", "ChangeBlock.add_trailing_line", "Changelog._format"):
         node, _ = mod.lookup(q)
         if node is not None:
             ctx.function_under_contract(MOD + ":" + q, mod.segment(node))
